@@ -1,17 +1,18 @@
 #!/bin/bash
-# usage: tools_seedeval.sh <patch.diff> <prop> [tier] ; applies the patch to /repo, runs the check, restores /repo
+# usage: tools_seedeval.sh <patch.diff> <prop> [tier] ; applies the patch to a scratch worktree of /repo (never to /repo
+# itself, so that other running checks are not disturbed), runs the check against it (VERIF_REPO), removes the worktree
 set -u
-patch="$1"; prop="$2"; tier="${3:-quick}"
-cd /repo || exit 2
-if ! git diff --quiet; then echo "REPO DIRTY"; exit 2; fi
-if ! git apply --3way "$patch" 2>/tmp/apply.err; then
-  if ! git apply "$patch" 2>>/tmp/apply.err; then echo "PATCH DOES NOT APPLY"; cat /tmp/apply.err | head -5; git checkout -- . ; exit 3; fi
-fi
-git reset -q 2>/dev/null
+patch="$(readlink -f "$1")"; prop="$2"; tier="${3:-quick}"
+wt=/tmp/wt/eval_$$
+mkdir -p /tmp/wt
+git -C /repo worktree add -q --detach "$wt" HEAD || exit 2
+cd "$wt" || exit 2
+if ! git apply "$patch" 2>/tmp/apply_$$.err; then echo "PATCH DOES NOT APPLY"; head -5 /tmp/apply_$$.err; cd /; git -C /repo worktree remove --force "$wt"; rm -f /tmp/apply_$$.err; exit 3; fi
+rm -f /tmp/apply_$$.err
 cd /verif
-timeout 3000 ./check "$prop" --tier "$tier" > /tmp/seedeval.out 2>&1
+VERIF_REPO="$wt" timeout 3000 ./check "$prop" --tier "$tier" > /tmp/seedeval_$$.out 2>&1
 rc=$?
-grep -E "^VIOLATION|^KNOWN|^MACHINERY|what:|^C[0-9]+ (quick|thorough)" /tmp/seedeval.out | cut -c1-260 | head -12
-echo "rc=$rc drift_lines=$(grep -c '^DRIFT' /tmp/seedeval.out)"
-git -C /repo checkout -- . ; git -C /repo status --short
-rm -f /verif/replays/*.json
+grep -E "^VIOLATION|^KNOWN|^MACHINERY|what:|^C[0-9]+ (quick|thorough)" /tmp/seedeval_$$.out | cut -c1-260 | head -12
+echo "rc=$rc drift_lines=$(grep -c '^DRIFT' /tmp/seedeval_$$.out)"
+rm -f /tmp/seedeval_$$.out
+cd /; git -C /repo worktree remove --force "$wt"; git -C /repo worktree prune
